@@ -14,6 +14,7 @@ import SkNet.Lemmas.ClassifyKnn
 import SkNet.Lemmas.ClassifyRank
 import SkNet.Lemmas.ClassMetrics
 import SkNet.Lemmas.ClassifySelect
+import SkNet.Lemmas.ClassifyKnnSpec
 
 namespace SkNet.C13
 open SkNet SkNet.Classify
@@ -457,6 +458,57 @@ theorem knn_labels_in_seed_set (emb : List (List Rat)) (labels : List Int) (kArg
   obtain ⟨h1, h0⟩ := (Knn.mem_trainIdx labels _).mp hm
   rw [← hpe]
   exact ⟨Diffusion.getD_mem h1 _, h0⟩
+
+/-- ★ **k nearest labelled nodes** (NNClassifier).  For any selection satisfying the contract of
+    `np.argpartition`, the row of an unlabelled node satisfies the nearest-neighbour specification that the `spec`
+    lines evaluate on the implementation's rows: its label counts sum to `k`; with `τ` the `k`-th smallest distance to
+    a labelled node, every labelled node strictly closer than `τ` is counted and no counted node is farther than `τ`. -/
+theorem knn_row_spec (emb : List (List Rat)) (labels : List Int) (k : Nat)
+    (sel : Nat → List Rat → Nat → List Nat) (hsel : SelOK sel) (i : Nat) (htest : labels.getD i (-1) < 0)
+    (hk : 0 < k) (hklt : k < (Knn.trainIdx labels).length) :
+    Spec.knnRowOK (Knn.distances emb (Knn.trainIdx labels) (getRow emb i))
+      ((Knn.trainIdx labels).map fun j => labels.getD j (-1)) k 0 (Knn.row emb labels k sel i)
+      (tab (Knn.nCols labels) fun q =>
+        ((Knn.neighbourLabels emb labels k sel i).filter (· == (q : Int))).length) = true := by
+  set ds := Knn.distances emb (Knn.trainIdx labels) (getRow emb i) with hds
+  have hdl : ds.length = (Knn.trainIdx labels).length := by
+    rw [hds]
+    unfold Knn.distances
+    simp
+  have hc := hsel i ds k (by rw [hdl]; exact hklt)
+  have hrange : ∀ p ∈ sel i ds k, p < (Knn.trainIdx labels).length := by
+    have h := hc
+    unfold IsSmallestK at h
+    simp only [Bool.and_eq_true, beq_iff_eq, List.all_eq_true, decide_eq_true_eq] at h
+    intro p hp
+    rw [← hdl]
+    exact h.1.2 p hp
+  have hlabs : ∀ p ∈ sel i ds k,
+      ((Knn.trainIdx labels).map fun j => labels.getD j (-1)).getD p (-1) =
+        labels.getD ((Knn.trainIdx labels).getD p 0) (-1) := by
+    intro p hp
+    have hlt := hrange p hp
+    simp only [List.getD_eq_getElem?_getD, List.getElem?_map, List.getElem?_eq_getElem hlt, Option.map_some,
+      Option.getD_some]
+  have hnb : Knn.neighbourLabels emb labels k sel i =
+      (sel i ds k).map fun p => ((Knn.trainIdx labels).map fun j => labels.getD j (-1)).getD p (-1) := by
+    unfold Knn.neighbourLabels
+    exact (List.map_congr_left hlabs).symm
+  have hrow : Knn.row emb labels k sel i = normalizeRow (tab (Knn.nCols labels) fun q =>
+      ((((Knn.neighbourLabels emb labels k sel i).filter (· == (q : Int))).length : Nat) : Rat)) := by
+    unfold Knn.row
+    have : ¬ (0 ≤ labels.getD i (-1)) := by omega
+    simp only [this, if_false]
+  rw [hrow, hnb]
+  apply Knn.row_spec ds _ k (sel i ds k) (Knn.nCols labels) hk hc
+  intro p hp
+  rw [hlabs p hp]
+  have hlt := hrange p hp
+  have hm : (Knn.trainIdx labels).getD p 0 ∈ Knn.trainIdx labels := by
+    rw [List.getD_eq_getElem?_getD, List.getElem?_eq_getElem hlt]
+    exact List.getElem_mem hlt
+  obtain ⟨h1, h0⟩ := (Knn.mem_trainIdx labels _).mp hm
+  exact ⟨h0, Knn.nCols_gt labels _ (Diffusion.getD_mem h1 _) h0⟩
 
 /-- non-vacuity: a 2-dimensional integer embedding with ties, three seeds of two classes, `n_neighbors = 2`;
     `smallestK` (the selection used by the `run` lines) satisfies the contract on this input -/
